@@ -137,6 +137,34 @@ variable {Msg Sig : Type} [DecidableEq Msg]
 /-- one-entry cache: last signed input and its signature -/
 abbrev Cache (Msg Sig : Type) := Option (Msg × Sig)
 
+/-- `SignatureCache.GetSignature`: **one** atomic step — compare the input and, in the same critical
+    section, read the signature. -/
+def cget (c : Cache Msg Sig) (input : Msg) : Option Sig :=
+  match c with
+  | some (i, s) => if i = input then some s else none
+  | none => none
+
+/-- `SignatureCache.SetSignature`: one atomic step. -/
+def cset (input : Msg) (s : Sig) : Cache Msg Sig := some (input, s)
+
+/-- A get split into two critical sections: `Contains(input)` evaluated in cache state `c1`, the
+    signature read later in cache state `c2` (other requests may have run in between). Not what the
+    code does; it is here to state why the get must be atomic (`C06.two_step_get_unsound`). -/
+def containsThenRead (c1 c2 : Cache Msg Sig) (input : Msg) : Option Sig :=
+  if (cget c1 input).isSome then c2.map (·.2) else none
+
+/-- What the handlers do to the shared cache, one atomic step each; requests of different handlers
+    interleave arbitrarily, so a schedule is any list of these. -/
+inductive CacheEv (Msg Sig : Type) where
+  | get (input : Msg)
+  | set (input : Msg) (s : Sig)
+
+/-- results of the gets of a schedule, in order -/
+def runCache : Cache Msg Sig → List (CacheEv Msg Sig) → List (Msg × Option Sig)
+  | _, [] => []
+  | c, .get i :: rest => (i, cget c i) :: runCache c rest
+  | _, .set i s :: rest => runCache (cset i s) rest
+
 /-- `signV1TreeHead`: reuse the cached signature iff the input bytes are the cached ones, else sign
     (`sign` may be randomised: `nonce`) and remember. -/
 def signHead (sign : Msg → Nat → Sig) (c : Cache Msg Sig) (input : Msg) (nonce : Nat) : Cache Msg Sig × Sig :=
